@@ -37,7 +37,7 @@ pub fn run(rng: &mut Rng, n: usize, out: &mut Out, which: &str) {
                 let allows: Vec<bool> = ms.iter().map(|m| has_mate_in_one(&g, &b.clone_with_move(m))).collect();
                 let mixed = allows.iter().any(|x| *x) && allows.iter().any(|x| !*x);
                 if !m1 && !mixed { continue; }
-                if qsize(&mut st, &b, 30000).is_none() { out.count("skipped_explosive_quiescence"); continue; }
+                if qsize(&mut st, &b, 4000).is_none() { out.count("skipped_explosive_quiescence"); continue; }
                 case += 1;
                 out.op(&format!("case {}", case), "ok");
                 fresh_keys(&mut st, out, "s.new");
@@ -45,7 +45,8 @@ pub fn run(rng: &mut Rng, n: usize, out: &mut Out, which: &str) {
                 if m1 {
                     out.count("positions_with_mate_in_one");
                     for d in 1..=4u8 {
-                        if d == 4 && crate::refchess::men(&b) > 12 { continue; }
+                        if d == 4 && crate::refchess::men(&b) > 7 { continue; }
+                        if d == 3 && crate::refchess::men(&b) > 14 { continue; }
                         let a = out.run(&mut st, &format!("s.fresh {} {}", bt, d));
                         let f: Vec<&str> = a.split_whitespace().collect();
                         if f.len() >= 2 {
@@ -60,7 +61,7 @@ pub fn run(rng: &mut Rng, n: usize, out: &mut Out, which: &str) {
                     out.count("positions_with_safe_and_unsafe_moves");
                     if allows.iter().filter(|x| !**x).count() == 1 { out.count("positions_with_single_safe_move"); }
                     for d in 2..=3u8 {
-                        if d == 3 && crate::refchess::men(&b) > 14 { continue; }
+                        if d == 3 && crate::refchess::men(&b) > 10 { continue; }
                         let a = out.run(&mut st, &format!("s.fresh {} {}", bt, d));
                         let f: Vec<&str> = a.split_whitespace().collect();
                         if f.len() >= 2 { out.run(&mut st, &format!("s.judge {} safe {}", bt, f[1])); out.count(&format!("safe_depth_{}", d)); }
